@@ -120,7 +120,7 @@ class FiltersSet:
             ":flags": "imap4flags",
             ":seconds": "vacation-seconds",
         }
-        if arg in args_using_extensions:
+        if isinstance(arg, str) and arg in args_using_extensions:
             self.require(args_using_extensions[arg])
 
     def __gen_require_command(self) -> Union[commands.Command, None]:
